@@ -137,7 +137,7 @@ Definition finish_number (first : N) (has_more is_range : bool) : tkind :=
   else if is_range then KRange
   else KNumber.
 
-Fixpoint num_loop (l : list N) (first prev : N) (has_more is_range : bool) : tkind * list N * list N :=
+Fixpoint num_loop (l : list N) (first : N) (fd : bool) (prev : N) (has_more is_range : bool) : tkind * list N * list N :=
   match l with
   | [] => (finish_number first has_more is_range, [], [])
   | c :: r =>
@@ -146,11 +146,11 @@ Fixpoint num_loop (l : list N) (first prev : N) (has_more is_range : bool) : tki
       if ((c =? ch_e) || (c =? ch_E))
          && negb (prev =? ch_minus) && negb (prev =? ch_plus) && negb (prev =? ch_dot)
       then scan_exp l
-      else if (c =? ch_minus) && is_digit first && negb is_range then
+      else if (c =? ch_minus) && fd && negb is_range then
         match r with
         | d :: r2 =>
           if is_digit d then
-            let '(k, w, rest) := num_loop r2 first prev has_more true in (k, c :: d :: w, rest)
+            let '(k, w, rest) := num_loop r2 first fd prev has_more true in (k, c :: d :: w, rest)
           else (finish_number first has_more is_range, [], l)
         | [] => (finish_number first has_more is_range, [], l)
         end
@@ -158,7 +158,7 @@ Fixpoint num_loop (l : list N) (first prev : N) (has_more is_range : bool) : tki
     else if (c =? ch_dot) && ((prev =? ch_minus) || (prev =? ch_plus)) then
       (finish_number first has_more is_range, [], l)
     else
-      let '(k, w, rest) := num_loop r first c true is_range in (k, c :: w, rest)
+      let '(k, w, rest) := num_loop r first fd c true is_range in (k, c :: w, rest)
   end.
 
 (* ---- scanString (scanner.go:375-385): reads up to the closing quote; a NUL character or the
@@ -172,17 +172,31 @@ Fixpoint str_loop (l : list N) : bool * list N * list N :=
     else let '(b, w, rest) := str_loop r in (b, c :: w, rest)
   end.
 
+End WithDigits.
+
 (* ---- scan (scanner.go:172-194) after the first character [c] has been read ----
-   returns kind, the characters consumed after [c], the rest *)
-Definition scan_after (c : N) (r : list N) : tkind * list N * list N :=
+   returns kind, the characters consumed after [c], the rest.
+   [up] is the digit class as [peek] sees it, [fd] = isNumber(c) for the character read. *)
+Definition scan_after' (up : N -> bool) (fd : bool) (c : N) (r : list N) : tkind * list N * list N :=
   if c =? 0 then (KEOF, [], r)
   else if is_space c then let '(w, rest) := span_space r in (KSpace, w, rest)
-  else if is_letter c then let '(w, rest) := span_alnum r in (classify_text c w, w, rest)
-  else if is_digit c || (c =? ch_minus) || (c =? ch_plus) then num_loop r c c false false
+  else if is_letter c then let '(w, rest) := span_alnum up r in (classify_text up c w, w, rest)
+  else if fd || (c =? ch_minus) || (c =? ch_plus) then num_loop up r c fd c false false
   else if c =? ch_quote then
     let '(closed, w, rest) := str_loop r in ((if closed then KString else KError), w, rest)
   else if is_punct_char c then (KPunct, [], r)
   else (KError, [], r).
+
+(* [peek] cannot decode characters above U+FFFF (it tries 1..3 bytes): a digit of a supplementary
+   plane starts a number when it is *read* as the first character of a token, but is never seen by
+   the loops, which only peek. *)
+Definition peek_digits (ud : N -> bool) : N -> bool := fun c => ud c && (c <? 65536).
+
+Section Scan.
+Variable ud : N -> bool.
+
+Definition scan_after (c : N) (r : list N) : tkind * list N * list N :=
+  scan_after' (peek_digits ud) (is_digit ud c) c r.
 
 (* emitToken: a string token's value drops the two quotes *)
 Definition token_value (k : tkind) (c : N) (w : list N) : str :=
@@ -214,7 +228,7 @@ Fixpoint lex_fuel (fuel : nat) (inp : list N) (p start : pos) : option (list rto
 Definition lex (text : list N) : option (list rtoken) :=
   lex_fuel (S (length text)) text (1, 0) (1, 0).
 
-End WithDigits.
+End Scan.
 
 (* parser.scan (parser.go:91-104): a space token is replaced by the next token (once) *)
 Definition is_space_tok (t : rtoken) : bool := tkind_eqb (rt_kind t) KSpace.
